@@ -978,6 +978,32 @@ def contents_pass(ctx):
     return (not fails and not crashed), st, texts
 
 
+def unwrap_pass(ctx):
+    """For c09.py: `try_unwrap` / `into_inner` / `unique` over every payload shape (sizes that are not a multiple of the
+    word, over-aligned, zero-sized): the value comes out, and the allocation is released — with the layout it was
+    requested with.  Returns (ok, stats, failures)."""
+    drv = common.lean_exe("drv_layout")
+    variants = ["dbg"] if not ctx.thorough() else ["dbg-full", "rel-o0"]
+    bins = build_variants(ctx, variants)
+    failures, stats, okall = [], {"cases": 0, "configs": variants}, True
+    for v in variants:
+        sh = Shapes(bins[v])
+        rng = random.Random(_seed_for(ctx, v) + 9)
+        cases = [mk_sized(sh, p, c, r, rng.randrange(1, 250)) for p in range(sh.n()) for c in SIZED_CTORS for r in ("try_unwrap", "into_inner")]
+        cases += [c for c in gen_cases(sh, rng, "quick", want=("hs",)) if c.meta.get("rel") == "unique"]
+        r = execute(bins[v], drv, sh, cases, config=v + "[unwrap]")
+        stats["cases"] += len(cases)
+        crashed = lambda i: r.impl[i].get("st", "").startswith("crash")
+        bad = [(i, fl) for i, fl in r.failures if fl["prop"] in ("C05", "C11") or crashed(i)]
+        for i, fl in sorted(bad, key=lambda x: (crashed(x[0]), case_weight(r.cases[x[0]])))[:5]:
+            failures.append({"found_input": True, "text": "configuration %s\n" % v + describe(r, i, sh) + "\nproperty violated (unwrapping: the allocation must be released as requested, the value handed out): " + fl["what"]})
+        for i, mm in r.mismatch[:3]:
+            failures.append({"found_input": False, "text": "configuration %s\n" % v + describe(r, i, sh) + "\nmodel/impl disagree on: " + str(mm)})
+        okall = okall and not bad and not r.mismatch
+        stats.setdefault("samples", []).append({"case": cases[3].line, "impl": r.impl_raw[3][:300]})
+    return okall, stats, failures
+
+
 def uninit_ovf_pass(ctx):
     """For c15.py: `new_uninit_slice` / `from_header_and_uninit_slice` with lengths whose byte size overflows or comes
     close to isize::MAX — the caller chooses the length, so "every slice length" includes the impossible ones: they must
